@@ -97,6 +97,7 @@ func loadWorld(repo, stubsDir string) (*World, error) {
 			w.typeInvs[k] = append(w.typeInvs[k], &typeInvInfo{v: ti.Var, cl: ti.Clause, pkg: pkg, gt: gt})
 		}
 		w.scans = append(w.scans, sf.Scans...)
+		w.sweeps = append(w.sweeps, sf.Sweeps...)
 		for n, ls := range sf.LocSets {
 			w.locSets[n] = ls
 		}
